@@ -230,7 +230,7 @@ Definition abs_labels (l : labels) : list alabel := map abs_label (l_ch l).
 
 Fixpoint abs_body (b : body) : afile :=
   match b with
-  | mkBody ch _ _ =>
+  | mkBody ch _ =>
       (fix go (l : list (Z * bitem)) : afile :=
          match l with [] => [] | n :: r => abs_item (snd n) :: go r end) ch
   end
@@ -242,7 +242,7 @@ with abs_item (it : bitem) : aitem :=
   end
 with abs_block (k : block) : aitem :=
   match k with
-  | mkBlock pre _ bd post _ _ _ _ _ _ _ =>
+  | mkBlock pre _ bd post _ _ _ _ _ _ =>
       match split_first is_kident pre with
       | Some (lead, (_, KLeaf (LIdent t)), (_, KLabels l) :: mid) =>
           ABlock (kleaves_tokens lead) t (abs_labels l) (kleaves_tokens mid)
@@ -291,8 +291,8 @@ Definition labels_wfb (l : labels) : bool :=
 
 Fixpoint body_wfb (b : body) : bool :=
   match b with
-  | mkBody ch items limbo =>
-      is_nil limbo && nodupb (ids ch) && zlist_eqb items (ids (filter is_item_b ch))
+  | mkBody ch items =>
+      nodupb (ids ch) && zlist_eqb items (ids (filter is_item_b ch))
       && nodup_keysb (keys_b ch)
       && (fix go (l : list (Z * bitem)) : bool :=
             match l with [] => true | n :: r => item_wfb (snd n) && go r end) ch
@@ -301,11 +301,11 @@ with item_wfb (it : bitem) : bool :=
   match it with ITokens _ => true | IAttr a => attr_wfb a | IBlock k => block_wfb k end
 with block_wfb (k : block) : bool :=
   match k with
-  | mkBlock pre bid bd post h1 h2 h3 h4 h5 h6 lb =>
+  | mkBlock pre bid bd post h1 h2 h3 h4 h5 h6 =>
       match split_first is_kident pre with
       | Some (lead, (iT, KLeaf (LIdent _)), (iL, KLabels l) :: mid) =>
           negb (is_nil lead) && nodupb (ids pre ++ bid :: ids post) && labels_wfb l
-          && (h2 =? iT) && (h3 =? iL) && (h5 =? bid) && is_nil lb
+          && (h2 =? iT) && (h3 =? iL) && (h5 =? bid)
           && mem h1 (ids lead) && nil_or_mem h4 (ids mid) && nil_or_mem h6 (ids post)
           && body_wfb bd
       | _ => false
